@@ -14,7 +14,8 @@ E == T.ev[l]
 
 TInit == /\ tid \in 1..Len(Traces) /\ l = 1
          /\ InitWith([iv |-> Traces[tid].cfg.iv, nowFlag |-> Traces[tid].cfg.nowFlag,
-                      wc |-> Traces[tid].cfg.wc, t0 |-> Traces[tid].cfg.t0])
+                      wc |-> Traces[tid].cfg.wc, t0 |-> Traces[tid].cfg.t0,
+                      strict |-> Traces[tid].cfg.strict])
 
 Matches == /\ last'.e = E.e
            /\ last'.calls = E.calls
@@ -28,7 +29,7 @@ HasCall == Len(E.calls) = 1
 B1 == E.calls[1].b
 
 TStart == E.e = "start" /\ Step(IF Len(E.calls) >= 1 THEN StartNow(B1) ELSE StartLater)
-TAdv   == E.e = "adv" /\ Step(IF Len(E.calls) >= 1 THEN AdvanceCall(E.d, B1) ELSE AdvanceQuiet(E.d))
+TAdv   == E.e = "adv" /\ Step(IF Len(E.calls) >= 1 THEN AdvanceCall(E.d, B1, IF E.calls[1].c > 0 THEN E.calls[1].c ELSE 0) ELSE AdvanceQuiet(E.d))
 TFire  == E.e = "fire" /\ Step(IF E.ok THEN FireOk ELSE FireFail)
 TStop  == E.e = "stop" /\ Step(StopScheduled \/ StopInCall \/ StopNotRunning)
 TReset == E.e = "reset" /\ Step(ResetScheduled \/ ResetInCall \/ ResetNotRunning)
